@@ -37,7 +37,7 @@ SetSum(S) == Cardinality(S)
 NoHdr == [run |-> 0, planner |-> "none", mode |-> "none", lvs |-> 1, maxd |-> 0, rad |-> 0, tol |-> 0,
           bias |-> "p", seeded |-> FALSE]
 NoQ == [sc |-> <<>>, goalf |-> <<>>, pidx |-> <<>>]
-NoApi == [pd |-> 0, T |-> 0, road |-> <<>>, gvalid |-> TRUE, road0 |-> 0, q |-> NoQ]
+NoApi == [pd |-> 0, T |-> 0, road |-> <<>>, gvalid |-> TRUE, road0 |-> 0, q |-> NoQ, st1 |-> <<>>, inited |-> FALSE]
 
 Init ==
   /\ l = 1 /\ hdr = NoHdr /\ trees = <<<<>>, <<>>>> /\ acc = {} /\ api = NoApi /\ nviol = 0
@@ -135,7 +135,7 @@ EvSetup(e) ==
   IN /\ Report(v)
      /\ trees' = SnapTrees(e.snap)
      /\ acc' = {}
-     /\ api' = [pd |-> e.pd, T |-> 0, road |-> SnapRoad(e.snap), road0 |-> 0, q |-> NoQ,
+     /\ api' = [pd |-> e.pd, T |-> 0, road |-> SnapRoad(e.snap), road0 |-> 0, q |-> NoQ, st1 |-> api.st1, inited |-> TRUE,
                  gvalid |-> \A i \in 1 .. Len(e.roots) : e.roots[i].tr = 2 => e.roots[i].valid]
      /\ nviol' = nviol + Cardinality(v)
      /\ UNCHANGED hdr
@@ -235,8 +235,8 @@ EvCRet(e) ==
       v ==  L(e.kind = "panic", "C08/panic@" \o e.site)
        \cup L(e.kind = "abort", "C06/no-return")
        \cup L(e.kind = "querycap", "C06/unbounded")
-       \cup L(api.pd = 0 /\ e.kind \notin {"uninit", "panic"}, "C08/outcome")
-       \cup L(api.pd # 0 /\ e.kind \notin {"unit", "panic", "abort", "querycap"}, "C08/outcome")
+       \cup L(~api.inited /\ e.kind \notin {"uninit", "panic"}, "C08/outcome")
+       \cup L(api.inited /\ e.kind \notin {"unit", "panic", "abort", "querycap"}, "C08/outcome")
        \cup L(e.kind # "panic" /\ ~RoadEq(sr, api.road), "C18/snapshot")
        \cup RoadLabels(e.snap)
   IN /\ Report(v)
@@ -274,10 +274,10 @@ QueryLabels(e) ==
       hi   == MinChain(road, must, G)
       p    == q.pidx
       tol  == hdr.tol
-  IN  L(api.pd # 0 /\ Len(road) = 0 /\ e.kind \notin {"unsampled", "panic"}, "C08/outcome")
+  IN  L(api.inited /\ Len(road) = 0 /\ e.kind \notin {"unsampled", "panic"}, "C08/outcome")
  \cup L(e.kind = "unsampled" /\ Len(road) # 0, "C08/outcome")
- \cup L(api.pd # 0 /\ Len(road) # 0 /\ ~e.start_valid /\ e.kind \notin {"invalidstart", "panic"}, "C08/outcome")
- \cup (IF api.pd = 0 \/ Len(road) = 0 \/ ~e.start_valid \/ nm # Len(road) THEN {}
+ \cup L(api.inited /\ Len(road) # 0 /\ ~e.start_valid /\ e.kind \notin {"invalidstart", "panic"}, "C08/outcome")
+ \cup (IF ~api.inited \/ Len(road) = 0 \/ ~e.start_valid \/ nm # Len(road) THEN {}
       ELSE  L(e.kind = "nosolution" /\ hi # 0, "C18/query-complete")
        \cup L(e.kind = "ok" /\ lo = 0, "C18/query-complete")
        \cup L(e.kind \notin {"ok", "nosolution", "timeout", "panic"}, "C08/outcome")
@@ -306,9 +306,9 @@ CommonRetLabels(e) ==
       L(e.kind = "panic", "C08/panic@" \o e.site)
  \cup L(e.kind = "abort", "C06/no-return")
  \cup L(e.kind = "querycap", "C06/unbounded")
- \cup L(api.pd = 0 /\ e.kind \notin {"uninit", "panic"}, "C08/outcome")
- \cup L(api.pd # 0 /\ e.kind = "uninit", "C08/outcome")
- \cup L(api.pd # 0 /\ ~e.start_valid /\ e.kind \in {"ok", "timeout", "nosolution"}, "C01/root-start")
+ \cup L(~api.inited /\ e.kind \notin {"uninit", "panic"}, "C08/outcome")
+ \cup L(api.inited /\ e.kind = "uninit", "C08/outcome")
+ \cup L(api.inited /\ ~e.start_valid /\ e.kind \in {"ok", "timeout", "nosolution"}, "C01/root-start")
  \cup L(e.kind = "invalidstart" /\ e.start_valid, "C08/outcome")
  \cup (IF e.kind = "ok" THEN
           L(Len(e.path) = 0, "C02/nonempty")
@@ -339,6 +339,27 @@ EvRet(e) ==
      /\ UNCHANGED <<hdr, acc, api>>
 
 
+(***************************************************************************)
+(* C07: two instances created with the same seed and driven through the    *)
+(* same calls.  The first instance's per-call generator draws and results  *)
+(* are bound on first use; the second instance must repeat them exactly.   *)
+(***************************************************************************)
+EvStream(e) ==
+  IF e.inst = 1
+    THEN /\ api' = [api EXCEPT !.st1 = Append(api.st1, e)]
+         /\ UNCHANGED <<hdr, trees, acc, nviol>>
+    ELSE LET known == e.call \in 1 .. Len(api.st1)
+             \* a call that panicked leaves the planner in an unspecified state (that is C08's
+             \* business): only calls up to and including the first panic are compared
+             live  == \A j \in 1 .. Len(api.st1) : j < e.call => ~api.st1[j].pan
+             v == IF ~live THEN {} ELSE
+                   L(hdr.seeded /\ ~known, "C07/stream")
+              \cup L(hdr.seeded /\ known /\ api.st1[e.call].draws # e.draws, "C07/stream")
+              \cup L(hdr.seeded /\ known /\ api.st1[e.call].res # e.res, "C07/result")
+         IN /\ Report(v)
+            /\ nviol' = nviol + Cardinality(v)
+            /\ UNCHANGED <<hdr, trees, acc, api>>
+
 Next ==
   /\ l <= N
   /\ l' = l + 1
@@ -354,6 +375,7 @@ Next ==
          [] e.ev = "psample" -> EvPSample(e)
          [] e.ev = "cret"  -> EvCRet(e)
          [] e.ev = "query" -> EvQuery(e)
+         [] e.ev = "stream" -> EvStream(e)
 
 Spec == Init /\ [][Next]_mvars
 
